@@ -14,3 +14,32 @@ func calleeOf(info *types.Info, call *ast.CallExpr) *types.Func {
 }
 
 func sortStrings(s []string) { sort.Strings(s) }
+
+// inlineWhen builds an esp.Rule.Inline predicate: a same-package callee is explored inline when
+// its body contains a call whose callee satisfies isCall, or a node satisfying isNode — i.e.
+// when a block carrying events of the rule was moved into a helper.
+func inlineWhen(info *types.Info, isCall func(*types.Func) bool, isNode func(ast.Node) bool) func(*types.Func, *ast.FuncDecl) bool {
+	cache := map[*ast.FuncDecl]bool{}
+	return func(_ *types.Func, d *ast.FuncDecl) bool {
+		if v, ok := cache[d]; ok {
+			return v
+		}
+		found := false
+		ast.Inspect(d.Body, func(n ast.Node) bool {
+			if found || n == nil {
+				return false
+			}
+			if isNode != nil && isNode(n) {
+				found = true
+			}
+			if c, ok := n.(*ast.CallExpr); ok && isCall != nil {
+				if f := calleeOf(info, c); f != nil && isCall(f) {
+					found = true
+				}
+			}
+			return !found
+		})
+		cache[d] = found
+		return found
+	}
+}
